@@ -128,7 +128,7 @@ REGRESSION_INPUTS = [
 
 #: alphabet of the exhaustive tiny-soup arm: every token sequence up to SOUP_LEN over it is read
 SOUP_ALPHABET = ['0', '1', '2', '3', '-1', '"a"', '"b', 'c"', 'x', '[tie', '[nick', ']', '1]', '(i)', '1=2', '#', '/*', '*/',
-                 '[{0}]']
+                 '[{0}]', '"']
 SOUP_LEN = 4
 
 
@@ -202,6 +202,8 @@ def gen_bases(R, seed, tier, count, size_cap):
 SOUP = ['0', '1', '2', '3', '4', '7', '10', '-1', '-2', '-0', '00', '1=2', '2=3=1', '=', '1=', '=1', '[tie', '[nick',
         '[withdrawn', '[undeclared', '[droop', '[bogus', ']', '[tie]', '[nick]', '[droop]', '[', '(', ')', '(b1)',
         '(b', '1)', '"', '""', '"A"', '"A', 'B"', '#', '/*', '*/', '/*x*/', 'a', 'c1', 'A', '-', '--1', '1.5', '1e3',
+        'a\u0301', '\u200f', '\u200b1', '1\xa02', '１２', '\u2028', '\u2029', '\x0b', '\x0c', '\x1d', '\x1e', '\x7f', '\ufffd',
+        '"', '"""', '[[', ']]', '((', '))', '/*/*', '*/*/', '#*/', '"#', '"/*',
         '[{x}', '[{}]', '[{0.a}]', '[%s]', '[%(x)s', '{0}', '%d', '０', '٣', '²', '﻿', '\x00', '\x85', ' ', '\x1c', 'é', '李', '\U0001f600', '9' * 30]
 
 IO_FAULTS = ('ENOENT', 'EACCES', 'EISDIR', 'EMFILE', 'EIO-before', 'EIO-after')
